@@ -24,6 +24,14 @@ def instances(tier):
                     "consts": dict(HttpItems='HttpOk', Items='C15Items', Cfg='CfgGen', MaxItems=2, ChunkMax=1,
                                    MaxIdle=4 if q else 5, Dts={1}, Reacts={"none", "close"},
                                    ReactAt={"poll", "ready"}, MaxReacts=1)})
+    for (p, r, t, c) in ((2, 0, 0, 3), (3, 0, 0, 3)):
+        name = 'p%dr%dt%dc%d-repeated-close' % (p, r, t, c)
+        defs = 'CfgGen == [poll |-> %d, ping_rate |-> %d, ping_timeout |-> %d, close_timeout |-> %d, auto_pong |-> TRUE]\n' % (p, r, t, c)
+        defs += 'C15Items == { F(1, 1, <<97>>) }\n'
+        out.append({"label": name, "cfg": {"poll": p, "ping_rate": r, "ping_timeout": t, "close_timeout": c, "auto_pong": True},
+                    "module": sessprop.wrapper('Mon_C15', extra_defs=defs, suffix='_' + name.replace('-', '_')),
+                    "consts": dict(HttpItems='HttpOk', Items='C15Items', Cfg='CfgGen', MaxItems=1, ChunkMax=1, MaxIdle=5, Dts={1},
+                                   Reacts={"none", "close"}, ReactAt={"poll", "text"}, MaxReacts=4)})
     return out
 
 
